@@ -32,6 +32,7 @@ import (
 	"time"
 
 	"github.com/caddyserver/caddy/v2"
+	"github.com/caddyserver/caddy/v2/modules/caddyhttp"
 	"go.uber.org/zap"
 
 	"github.com/mholt/caddy-l4/layer4"
@@ -494,6 +495,39 @@ func msAddrZ(a netip.Addr) string {
 	return new(big.Int).SetBytes(b).String()
 }
 
+// probe addresses chosen relative to EACH range of a list: its first and last address, the
+// neighbours on both sides of both boundaries and a random address inside (deduplicated)
+func msProbeHosts(cs []msCIDR, r *vRng) []string {
+	seen := map[string]bool{}
+	var hs []string
+	add := func(a netip.Addr) {
+		if !a.IsValid() {
+			return
+		}
+		a = a.Unmap()
+		if s := a.String(); !seen[s] {
+			seen[s] = true
+			hs = append(hs, s)
+		}
+	}
+	for _, c := range cs {
+		first := c.pfx.Masked().Addr()
+		b := first.AsSlice()
+		in := first.AsSlice()
+		rnd := r.Bytes(len(b))
+		for i := c.pfx.Bits(); i < len(b)*8; i++ {
+			b[i/8] |= 1 << (7 - i%8)
+			in[i/8] |= rnd[i/8] & (1 << (7 - i%8))
+		}
+		last, _ := netip.AddrFromSlice(b)
+		inside, _ := netip.AddrFromSlice(in)
+		for _, a := range []netip.Addr{first, first.Prev(), first.Next(), last, last.Prev(), last.Next(), inside} {
+			add(a)
+		}
+	}
+	return hs
+}
+
 func msCIDRsCoq(cs []msCIDR) string {
 	var ss []string
 	for _, c := range cs {
@@ -857,8 +891,13 @@ func msGenHTTP(r *vRng, i int) msStream {
 			return msStream{b: b, cls: "full-buffer", ref: -1}
 		}
 		return msStream{b: b, cls: "no-newline", ref: -1}
-	case 6: // a line too short to hold a request line
-		b := append(msPrintable(r, r.Intn(9), ""), '\n')
+	case 6: // first lines around the shortest possible request line: LF at index 0..13, with and without CR
+		idx := (i / 8) % 26
+		b := msPrintable(r, idx/2, "")
+		if idx%2 == 1 {
+			b = append(b, '\r')
+		}
+		b = append(b, '\n')
 		return msStream{b: append(b, msTrail(r)...), cls: "short-line", ref: -1}
 	case 7:
 		b := r.Bytes(10 + r.Intn(40))
@@ -937,6 +976,9 @@ func TestVerifMSmall(t *testing.T) {
 			msS4(msS4Cfg{networks: []string{"0.0.0.0/0"}}),
 			msS4(msS4Cfg{networks: []string{"2001:db8::/32"}}),
 			msS4(msS4Cfg{commands: []string{"CONNECT", "BIND"}, networks: []string{"128.0.0.0/1", "8.8.8.8/32"}}),
+			msS4(msS4Cfg{networks: []string{"10.1.0.0/16", "10.0.0.0/8"}}),
+			msS4(msS4Cfg{networks: []string{"10.0.0.0/8", "10.1.0.0/16", "10.1.2.3"}}),
+			msS4(msS4Cfg{ports: []uint16{1080}, networks: []string{"192.168.1.7", "192.168.1.0/28", "192.168.0.0/16", "192.168.1.0/28"}}),
 		}},
 		{tag: "socks5", cfgs: []msCfg{
 			msS5(nil), msS5([]uint16{0}), msS5([]uint16{2}), msS5([]uint16{0, 2, 128, 255}), msS5([]uint16{300}),
@@ -1384,25 +1426,43 @@ func msIP(out *vOut, r *vRng, n int, emit func(string, string, bool, any)) {
 		{"::/0"},
 		{"203.0.113.64/26", "2001:db8:aaaa::/48", "198.51.100.7/32"},
 		{"::ffff:0:0/96"},
+		// lists whose entries overlap: a configured list means the UNION of its ranges, whatever the order
+		{"10.1.0.0/16", "10.0.0.0/8"},                          // narrow, then the wide range containing it
+		{"10.0.0.0/8", "10.1.0.0/16"},                          // wide, then narrow
+		{"10.1.2.3", "10.0.0.0/8"},                             // a single address inside a later CIDR
+		{"10.0.0.0/8", "10.1.2.3", "10.0.0.0/8"},               // and the reverse, with a duplicate
+		{"192.168.1.0/24", "192.168.1.0/28", "192.168.0.0/16"}, // same base, different prefix lengths
+		{"2001:db8:1::/48", "2001:db8::/32"},
+		{"2001:db8::/32", "2001:db8:1::/48", "2001:db8:1::1"},
+		{"172.16.5.0/24", "203.0.113.0/24", "172.16.0.0/12", "203.0.113.128/25"},
+		{"::ffff:10.1.0.0/112", "10.0.0.0/8", "::ffff:10.0.0.0/104"}, // IPv4-mapped prefixes next to the IPv4 one
+		{"fe80::1", "fe80::/10", "::/0"},
+	}
+	// a literal next to the private ranges (what `remote_ip 10.1.2.3 private_ranges` expands to), both orders
+	rangeSets = append(rangeSets, append([]string{"10.1.2.3", "fd12::1"}, caddyhttp.PrivateRangesCIDR()...))
+	rangeSets = append(rangeSets, append(append([]string{}, caddyhttp.PrivateRangesCIDR()...), "192.168.7.7", "8.8.8.0/24"))
+	// random nestings: a base network, a narrower and a wider one and an address inside, in random order
+	for j := 0; j < 6; j++ {
+		base := r.Bytes(4)
+		wide := 4 + r.Intn(16)
+		mid := wide + 1 + r.Intn(8)
+		narrow := mid + 1 + r.Intn(32-mid)
+		pf := func(bits int) string {
+			return netip.PrefixFrom(netip.AddrFrom4([4]byte(base)), bits).Masked().String()
+		}
+		list := []string{pf(narrow), pf(mid), pf(wide), netip.AddrFrom4([4]byte(base)).String()}
+		for k := len(list) - 1; k > 0; k-- {
+			o := r.Intn(k + 1)
+			list[k], list[o] = list[o], list[k]
+		}
+		rangeSets = append(rangeSets, list[:2+r.Intn(3)])
 	}
 	for si, rs := range rangeSets {
 		var cidrs []msCIDR
 		for _, s := range rs {
 			cidrs = append(cidrs, msParseCIDR(s))
 		}
-		var hosts []string
-		for _, c := range cidrs {
-			a := c.pfx.Masked().Addr()
-			hosts = append(hosts, a.String(), a.Prev().String(), a.Next().String())
-			// last address of the range and the one after it
-			b := a.AsSlice()
-			bits := c.pfx.Bits()
-			for i := bits; i < len(b)*8; i++ {
-				b[i/8] |= 1 << (7 - i%8)
-			}
-			last, _ := netip.AddrFromSlice(b)
-			hosts = append(hosts, last.String(), last.Next().String())
-		}
+		hosts := msProbeHosts(cidrs, r)
 		for j := 0; j < 4; j++ {
 			hosts = append(hosts, netip.AddrFrom4([4]byte(r.Bytes(4))).String(), netip.AddrFrom16([16]byte(r.Bytes(16))).String())
 		}
@@ -1494,10 +1554,7 @@ func msIP(out *vOut, r *vRng, n int, emit func(string, string, bool, any)) {
 			}
 			var hs []string
 			for _, cs := range gc {
-				for _, c := range cs {
-					a := c.pfx.Masked().Addr()
-					hs = append(hs, a.String(), a.Next().String(), a.Prev().String())
-				}
+				hs = append(hs, msProbeHosts(cs, r)...)
 			}
 			hs = append(hs, "10.1.2.3", "192.168.0.1", "8.8.8.8", "2001:db8::1", "fe80::1", "::1", "203.0.113.65")
 			for _, h := range hs {
@@ -1537,11 +1594,7 @@ func msIP(out *vOut, r *vRng, n int, emit func(string, string, bool, any)) {
 		// addresses as the net package (and the proxy_protocol handler) hands them over: *net.TCPAddr and
 		// *net.UDPAddr values holding an IPv4 address in its 16-byte form (net.ParseIP), in its 4-byte
 		// form, IPv6 addresses and zoned addresses; under remote_ip, local_ip and not{remote_ip}
-		var ipHosts []string
-		for _, c := range cidrs {
-			a := c.pfx.Masked().Addr()
-			ipHosts = append(ipHosts, a.String(), a.Next().String(), a.Prev().String())
-		}
+		ipHosts := msProbeHosts(cidrs, r)
 		ipHosts = append(ipHosts, "10.1.2.3", "192.168.0.1", "127.0.0.1", "203.0.113.65", "8.8.8.8", "2001:db8::1", "fe80::1", "::1")
 		for hi, h := range ipHosts {
 			ip16 := net.ParseIP(h)
@@ -1646,7 +1699,7 @@ type msStep struct {
 func msSequence(out *vOut, r *vRng, n int, matchers []msMatcher, emit func(string, string, bool, any)) {
 	hms := func(s int) string { return fmt.Sprintf("%02d:%02d:%02d", s/3600, s/60%60, s%60) }
 	zoneNames := []string{"", "+02", "-03:30", "+12:34:56", "-11", "+14:00", "America/New_York", "Europe/Berlin", "Australia/Sydney", "Asia/Kolkata"}
-	rangeSets := [][]string{{"10.0.0.0/8"}, {"192.168.0.0/16", "127.0.0.1"}, {"2001:db8::/32"}, {"0.0.0.0/0"}, {"::/0"}, {"203.0.113.64/26", "198.51.100.7/32"}, {"10.1.0.0/16", "fe80::/10"}}
+	rangeSets := [][]string{{"10.0.0.0/8"}, {"192.168.0.0/16", "127.0.0.1"}, {"2001:db8::/32"}, {"0.0.0.0/0"}, {"::/0"}, {"203.0.113.64/26", "198.51.100.7/32"}, {"10.1.0.0/16", "fe80::/10"}, {"10.1.0.0/16", "10.0.0.0/8"}, {"2001:db8:1::/48", "2001:db8::/32"}, {"10.1.2.3", "10.0.0.0/8"}}
 	addrPool := []string{"10.1.2.3", "10.200.0.1", "192.168.0.1", "127.0.0.1", "8.8.8.8", "203.0.113.65", "198.51.100.7", "2001:db8::1", "2001:db9::1", "fe80::1", "::1"}
 	var streamCfgs []msCfg
 	var streamTags []string
